@@ -82,14 +82,15 @@ impl From<Luv> for Xyz {
         } else {
             luv.l / KAPPA
         };
-        let a = (1.0 / 3.0) * ((52.0 * luv.l) / (luv.u + 13.0 * luv.l * ur) - 1.0);
-        let b = -5.0 * y;
-        let c = -1.0 / 3.0;
-        let d = y * ((39.0 * luv.l) / (luv.v + 13.0 * luv.l * vr) - 5.0);
+        // chromaticity u', v' of the colour, then the CIE inverse. (The former a/b/c/d form divided by
+        // 13 * L * u', which is zero for every colour without an X component and produced NaN)
+        let up = luv.u / (13.0 * luv.l) + ur;
+        let vp = luv.v / (13.0 * luv.l) + vr;
 
-        let x = (d - b) / (a - c);
+        let x = y * (9.0 * up) / (4.0 * vp);
+        let z = y * (12.0 - 3.0 * up - 20.0 * vp) / (4.0 * vp);
 
-        Xyz { x, y, z: x * a + b }
+        Xyz { x, y, z }
     }
 }
 
